@@ -3,6 +3,8 @@
 package evaluator
 
 import (
+	"math/rand"
+
 	"evylang.dev/evy/pkg/parser"
 )
 
@@ -129,5 +131,40 @@ func ZZC08Corpus() {
 	zzAssert(o1.errs == o2.errs && o1.fmted == o2.fmted, "C08 corpus: parse errors and formatted text do not depend on map iteration order")
 	zzAssert(o1.trace == o2.trace && o1.result == o2.result, "C08 corpus: program output and result do not depend on map iteration order")
 	zzReach("corpus-ok")
+	zzWitness("end")
+}
+
+
+var zzC08RandProgs = []string{
+	"print (rand 6) (rand 6) (rand1)\n",
+	"s := 0\nfor range 3\n    s = s * 10 + (rand 10)\nend\nprint s (rand1)\n",
+	"a := [(rand 3) (rand 3)]\nm := {k:(rand1) j:(rand 100)}\nprint a m\nif (rand 2) == 0\n    print \"heads\" (rand 5)\nelse\n    print \"tails\" (rand1)\nend\n",
+	"func roll:num\n    return (rand 6) + 1\nend\nprint (roll) (roll)\nn := 0\nwhile n < 2 and (rand 4) > 0\n    n = n + 1\n    print \"again\" (roll)\nend\n",
+}
+
+// ZZC08Seed: program output is a function of the source and the random seed:
+// two runs from the same (symbolic) seed, with the random source installed as
+// `evy run --rand-seed` installs it, print the same text. The seeded source is
+// modelled as an uninterpreted function of (seed, number of the call, bound);
+// a result drawn from anywhere else (the global source, the clock) is a fresh
+// unconstrained value and makes the two traces differ.
+func ZZC08Seed() {
+	src := zzC08RandProgs[zzChoice("prog", len(zzC08RandProgs))]
+	seed := int64(zzInt("seed", -1<<40, 1<<40))
+	run := func() (string, error) {
+		RandSource = rand.New(rand.NewSource(seed)) //nolint:gosec
+		p := &zzPlat{}
+		ev := NewEvaluator(p)
+		err := ev.Run(src)
+		return p.out(), err
+	}
+	t1, e1 := run()
+	t2, e2 := run()
+	zzAssert(e1 == nil && e2 == nil, "C08 seed: programs that draw random numbers run")
+	if t1 != t2 {
+		zzLog("C08 seed: " + t1 + " vs " + t2)
+	}
+	zzAssert(t1 == t2, "C08 seed: two runs from the same random seed produce the same output")
+	zzReach("seed-ok")
 	zzWitness("end")
 }
